@@ -246,6 +246,9 @@ def seqItems : Val → Option (List Val)
 
 inductive Matches : Val → Val → Prop
   | scalar (v : Val) (a : Cell) : Matches v (.cell a)
+  /-- `v` stops here: whatever of the companion was matched down to this leaf - a scalar or a whole container - is what the leaf
+  receives (`f([1,2], [[10,20],[30,40]])`: the leaf `1` receives the list `[10,20]`) -/
+  | leaf (a : Cell) (c : Val) : Matches (.cell a) c
   | seq {v c : Val} {xs cs : List Val} : seqItems v = some xs → seqItems c = some cs → cs.length = xs.length →
       (∀ (i : Nat) (x y : Val), xs[i]? = some x → cs[i]? = some y → Matches x y) → Matches v c
   | dict {kvs cs : KW} : sortStr (keysOf cs) = sortStr (keysOf kvs) →
@@ -275,6 +278,7 @@ theorem select_matches : ∀ (p : Path) (v c : Val), Matches v c → (v.at p).is
             cases v <;> cases s <;> simp [selStep, itemByI, itemByKey]
           rw [this, select_scalar]
           simp [follow]
+        | leaf a c => simp [Val.child] at hv
         | @seq _ _ xs cs hxs hcs hl hm =>
           -- `v` is a list or a tuple, so the step is an index below the common length
           obtain ⟨i, rfl, hxi⟩ : ∃ i, s = .idx i ∧ xs[i]? = some v' := by
@@ -1227,5 +1231,269 @@ theorem waiter_failure_order_matters :
 example : (runEventsF (.dict [("k", .tuple [.aw 1, .val (.int 5)]), ("j", .aw 2)])
     ([(2, .ok (.cell (.int 100)))] ++ (1, .error 9) :: [])).outcome = some (.error 9) :=
   waiter_first_failure_wins _ _ _ 1 9 (by simp [awaitables, awaitablesList, awaitablesKVs]) (by simp)
+
+
+/-! ## round h6 (review s5): leaf against container, key SETS, sharper "everything else is broadcast", the keyword `axis` -/
+
+/-- the commonest per-element use, which `Matches` did not cover before the `leaf` constructor: a flat list and a companion
+list of the same length whose members are containers - each leaf receives its member WHOLE -/
+example :
+    let v : Val := .list [.cell (.int 1), .cell (.int 2)]
+    let c : Val := .list [.list [.cell (.int 10), .cell (.int 20)], .list [.cell (.int 30), .cell (.int 40)]]
+    Matches v c ∧ select v [.idx 0] c = .list [.cell (.int 10), .cell (.int 20)] ∧
+    follow c [.idx 0] = .list [.cell (.int 10), .cell (.int 20)] := by
+  refine ⟨?_, by decide +kernel, by decide +kernel⟩
+  refine Matches.seq (xs := [.cell (.int 1), .cell (.int 2)])
+    (cs := [.list [.cell (.int 10), .cell (.int 20)], .list [.cell (.int 30), .cell (.int 40)]]) rfl rfl rfl ?_
+  intro i x y hx hy
+  match i, hx, hy with
+  | 0, hx, hy => simp at hx hy; subst hx; exact Matches.leaf _ _
+  | 1, hx, hy => simp at hx hy; subst hx; exact Matches.leaf _ _
+  | n + 2, hx, _ => simp at hx
+
+/-- **"the same keys" is the same key SET, not the code's sorting**: the test the code makes on two key lists
+(`sorted(value.keys()) == keys`) succeeds exactly when one is a permutation of the other - for python dicts (distinct keys)
+exactly when they have the same keys in any order.  (`insertStr` commutes, `sortStr` is a permutation.) -/
+theorem sortStr_eq_iff_perm (a b : List String) : sortStr a = sortStr b ↔ a.Perm b :=
+  ⟨perm_of_sortStr_eq a b, sortStr_eq_of_perm⟩
+
+/-- … so a companion dict is matched by key exactly when it has the keys of the looped dict: -/
+theorem selStep_same_keys_perm (kvs cs : KW) (k : String) (h : (keysOf cs).Perm (keysOf kvs)) :
+    selStep (.dict kvs) (.key k) (.dict cs) = getKey cs k :=
+  selStep_same_keys kvs cs k (sortStr_eq_of_perm h)
+
+/-- `Matches` for dicts, stated with the key sets -/
+theorem Matches.dict_of_perm {kvs cs : KW} (h : (keysOf cs).Perm (keysOf kvs))
+    (hm : ∀ (k : String) (x y : Val), kvs.lookup k = some x → cs.lookup k = some y → Matches x y) :
+    Matches (.dict kvs) (.dict cs) :=
+  Matches.dict (sortStr_eq_of_perm h) hm
+
+/-- … and a companion dict with OTHER keys is not matched at this level (it is searched value by value: K3, or passed whole) -/
+theorem selStep_other_keys (kvs cs : KW) (k : String) (h : ¬ (keysOf cs).Perm (keysOf kvs)) :
+    selStep (.dict kvs) (.key k) (.dict cs) = .dict (itemByKeyKVs k (sortStr (keysOf kvs)) cs) := by
+  have : sortStr (keysOf cs) ≠ sortStr (keysOf kvs) := fun e => h (perm_of_sortStr_eq _ _ e)
+  simp [selStep, itemByKey, this]
+
+/-- **Everything else is broadcast** (sequences), with the hypothesis the code needs and no more: `_item_by_i` descends
+through lists and tuples only, so only sequences reachable from `c` through sequences matter - a list of the looped length
+hidden inside a DICT of the companion does not prevent broadcasting (`rec([1,2], [{'k': [10,20]}, 5, 6])` passes the companion
+whole).  `selStep_broadcast_seq` is the special case "no such sequence anywhere". -/
+theorem selStep_broadcast_seq_sharp (xs : List Val) (i : Nat) (c : Val)
+    (h : ∀ q cs, IdxPath q → (c.at q = some (.list cs) ∨ c.at q = some (.tuple cs)) → cs.length ≠ xs.length) :
+    selStep (.list xs) (.idx i) c = c ∧ selStep (.tuple xs) (.idx i) c = c := by
+  simp only [selStep]
+  exact ⟨itemByI_no_match_seq i xs.length _ c (Nat.le_refl _) h, itemByI_no_match_seq i xs.length _ c (Nat.le_refl _) h⟩
+
+example :
+    let c : Val := .list [.dict [("k", .list [.cell (.int 10), .cell (.int 20)])], .cell (.int 5), .cell (.int 6)]
+    selStep (.list [.cell (.int 1), .cell (.int 2)]) (.idx 0) c = c ∧
+    c.at [.idx 0, .key "k"] = some (.list [.cell (.int 10), .cell (.int 20)]) := by decide +kernel
+
+/-- **Everything else is broadcast** (dicts): only dicts reachable from `c` through dict VALUES matter (`_item_by_key` does not
+look into lists or tuples) -/
+theorem selStep_broadcast_dict_sharp (kvs : KW) (k : String) (c : Val) (hc : c.KeysNodup)
+    (h : ∀ q cs, KeyPath q → c.at q = some (.dict cs) → ¬ (keysOf cs).Perm (keysOf kvs)) :
+    selStep (.dict kvs) (.key k) c = c := by
+  simp only [selStep]
+  exact itemByKey_no_match_dict k _ _ c (Nat.le_refl _) hc
+    (fun q cs hq hd e => h q cs hq hd (perm_of_sortStr_eq _ _ e))
+
+example :
+    let c : Val := .dict [("z", .list [.dict [("a", .cell (.int 5))]])]
+    selStep (.dict [("a", .cell (.int 1))]) (.key "a") c = c := by decide +kernel
+
+/-- `def g(a, axis='d'): return (a, axis)` as a `LeafFn` -/
+def exAxis : LeafFn := fun a args kw =>
+  match args, kw with
+  | [], [] => .ok (.tuple [a, .cell (.str "d")])
+  | [b], [] => .ok (.tuple [a, b])
+  | [], [("axis", b)] => .ok (.tuple [a, b])
+  | _, _ => .error .type
+
+/-- **A keyword called `axis` never reaches the lifted function (finding K7): "whether passed positionally or by keyword" is
+false of the code for that name.**  `g` binds its next positional parameter to the name `axis` (`BindsNext`), yet
+`loop(list, tuple, dict)(g)([1, 2], 5)` gives every leaf the companion and `…([1, 2], axis=5)` gives every leaf the default:
+`loops._wrapped` pops `axis` at every level (`dropAxis`), for every type set.  This is why `pos_kw_agree` excludes the name. -/
+theorem axis_keyword_swallowed :
+    ∃ (f : LeafFn) (v c : Val), BindsNext f 0 "axis" ∧ wrapped f v [c] [] ≠ wrapped f v [] [("axis", c)] ∧
+      wrapped f v [c] [] = .ok (.list [.tuple [.cell (.int 1), c], .tuple [.cell (.int 2), c]]) ∧
+      wrapped f v [] [("axis", c)] = wrapped f v [] [] := by
+  refine ⟨exAxis, .list [.cell (.int 1), .cell (.int 2)], .cell (.int 5), ?_, by decide +kernel, by decide +kernel, by decide +kernel⟩
+  intro x as kw c hl hk
+  cases as with
+  | cons _ _ => simp at hl
+  | nil =>
+    cases kw with
+    | nil => simp [exAxis]
+    | cons p kw =>
+      obtain ⟨k, v⟩ := p
+      have hkb : k ≠ "axis" := by intro e; apply hk; simp [keysOf, e]
+      cases kw <;> simp [exAxis]
+
+/-! ## round h6: clauses 4 + 5 once, through every level, with finding K3 as the exact complement -/
+
+theorem levelMatch_seq_cases {n : Nat} {c : Val} (h : isSeqOfLen n c = true) :
+    ∃ cs, (c = .list cs ∨ c = .tuple cs) ∧ cs.length = n := by
+  cases c with
+  | list cs => exact ⟨cs, Or.inl rfl, by simpa [isSeqOfLen] using h⟩
+  | tuple cs => exact ⟨cs, Or.inr rfl, by simpa [isSeqOfLen] using h⟩
+  | cell a => simp [isSeqOfLen] at h
+  | dict kvs => simp [isSeqOfLen] at h
+
+/-- sequences: one level of the code = one level of the statement unless the companion is of the K3 class -/
+theorem itemByI_statement (n i : Nat) (hi : i < n) (c : Val) (h : isSeqOfLen n c = false → ¬ HoldsSeq n c) :
+    itemByI i n c = if isSeqOfLen n c then (c.child (.idx i)).getD c else c := by
+  cases hm : isSeqOfLen n c with
+  | true =>
+    obtain ⟨cs, hc, hl⟩ := levelMatch_seq_cases hm
+    have hg : getIdx cs i = cs[i]'(by omega) := by simp [getIdx, List.getD, hl, hi]
+    rcases hc with rfl | rfl <;> simp [itemByI, hl, hg, Val.child, hi]
+  | false =>
+    simp only [Bool.false_eq_true, ↓reduceIte]
+    apply itemByI_no_match_seq i n _ c (Nat.le_refl _)
+    intro q cs hq hat hlen
+    exact h hm ⟨q, cs, hq, hat, hlen⟩
+
+/-- **Clauses 4 + 5 at one level, with finding K3 as the exact complement.**  Descending into child `s` of `v`, the code hands
+down `pickLevel v s c` - the member of a companion that is a sequence of the same length / a dict of the same keys, and otherwise
+the companion WHOLE ("everything else is broadcast") - unless the companion is of the K3 class (`SearchedStep`: it does not
+match the level but holds a matching container further inside, reachable through sequences resp. dict values) … -/
+theorem selStep_statement (v v' : Val) (s : Step) (c : Val) (hv : v.child s = some v') (hc : c.KeysNodup)
+    (h : ¬ SearchedStep v c) : selStep v s c = pickLevel v s c := by
+  cases v with
+  | cell a => simp [Val.child] at hv
+  | list xs =>
+    cases s with
+    | key k => simp [Val.child] at hv
+    | idx i =>
+      have hi : i < xs.length := (List.getElem?_eq_some_iff.1 (by simpa [Val.child] using hv)).1
+      simp only [selStep, pickLevel, levelMatch]
+      exact itemByI_statement xs.length i hi c (fun hm hh => h ⟨by simpa [levelMatch] using hm, hh⟩)
+  | tuple xs =>
+    cases s with
+    | key k => simp [Val.child] at hv
+    | idx i =>
+      have hi : i < xs.length := (List.getElem?_eq_some_iff.1 (by simpa [Val.child] using hv)).1
+      simp only [selStep, pickLevel, levelMatch]
+      exact itemByI_statement xs.length i hi c (fun hm hh => h ⟨by simpa [levelMatch] using hm, hh⟩)
+  | dict kvs =>
+    cases s with
+    | idx i => simp [Val.child] at hv
+    | key k =>
+      have hk : kvs.lookup k = some v' := by simpa [Val.child] using hv
+      simp only [selStep, pickLevel]
+      cases hm : levelMatch (.dict kvs) c with
+      | true =>
+        cases c with
+        | dict cs =>
+          have hp : (keysOf cs).Perm (keysOf kvs) := by simpa [levelMatch] using hm
+          have hmem : k ∈ keysOf cs := hp.symm.subset (mem_keys_of_lookup k v' kvs hk)
+          obtain ⟨y, hy⟩ := lookup_isSome_of_mem_keys k cs hmem
+          simp [itemByKey, sortStr_eq_of_perm hp, getKey, hy, Val.child]
+        | cell a => simp [levelMatch] at hm
+        | list cs => simp [levelMatch] at hm
+        | tuple cs => simp [levelMatch] at hm
+      | false =>
+        simp only [Bool.false_eq_true, ↓reduceIte]
+        apply itemByKey_no_match_dict k _ _ c (Nat.le_refl _) hc
+        intro q cs hq hat e
+        exact h ⟨hm, ⟨q, cs, hq, hat, perm_of_sortStr_eq _ _ e⟩⟩
+
+/-- … and on the K3 class the code does NOT do what the statement says: it hands down something else than the whole companion -/
+theorem selStep_searched (v v' : Val) (s : Step) (c : Val) (hv : v.child s = some v') (h : SearchedStep v c) :
+    selStep v s c ≠ pickLevel v s c := by
+  obtain ⟨hm, hh⟩ := h
+  simp only [pickLevel, hm, Bool.false_eq_true, ↓reduceIte]
+  cases v with
+  | cell a => simp [Val.child] at hv
+  | list xs =>
+    cases s with
+    | key k => simp [Val.child] at hv
+    | idx i =>
+      obtain ⟨q, cs, hq, hat, hl⟩ := hh
+      exact itemByI_searched i xs.length q c cs hq hat hl
+  | tuple xs =>
+    cases s with
+    | key k => simp [Val.child] at hv
+    | idx i =>
+      obtain ⟨q, cs, hq, hat, hl⟩ := hh
+      exact itemByI_searched i xs.length q c cs hq hat hl
+  | dict kvs =>
+    cases s with
+    | idx i => simp [Val.child] at hv
+    | key k =>
+      obtain ⟨q, cs, hq, hat, hp⟩ := hh
+      exact itemByKey_searched k _ q c cs hq hat (sortStr_eq_of_perm hp)
+
+/-- the boundary of finding K3, exactly -/
+theorem selStep_eq_pickLevel_iff (v v' : Val) (s : Step) (c : Val) (hv : v.child s = some v') (hc : c.KeysNodup) :
+    selStep v s c = pickLevel v s c ↔ ¬ SearchedStep v c :=
+  ⟨fun e hs => selStep_searched v v' s c hv hs e, selStep_statement v v' s c hv hc⟩
+
+theorem pickLevel_KeysNodup (v : Val) (s : Step) (c : Val) (hc : c.KeysNodup) : (pickLevel v s c).KeysNodup := by
+  unfold pickLevel
+  split
+  · cases hch : c.child s with
+    | none => simpa using hc
+    | some c' => simpa using KeysNodup_child hc hch
+  · exact hc
+
+/-- **Clauses 4 + 5 through every level**: for ANY companion - scalar, same shape, deeper than `v`, shallower, of another shape -
+the leaf of `v` at path `p` receives what the STATEMENT selects (`pickAlong`: at every level the member of a matching container,
+else the whole), provided no level on the way is of the K3 class.  `select_matches`, `select_scalar` and the
+`selStep_broadcast_*` theorems are special cases. -/
+theorem select_statement : ∀ (p : Path) (v c : Val), c.KeysNodup → (v.at p).isSome → NotSearched v p c →
+    select v p c = pickAlong v p c
+  | [], v, c, _, _, _ => by simp [select, pickAlong]
+  | s :: p, v, c, hc, hp, hn => by
+      cases hv : v.child s with
+      | none => simp [Val.at, hv] at hp
+      | some v' =>
+        have hp' : (v'.at p).isSome := by simpa [Val.at, hv] using hp
+        simp only [NotSearched, hv] at hn
+        rw [select_step v v' s p c hv, selStep_statement v v' s c hv hc hn.1]
+        simp only [pickAlong, hv]
+        exact select_statement p v' (pickLevel v s c) (pickLevel_KeysNodup v s c hc) hp' hn.2
+
+/-- non-vacuity: a companion DEEPER than `v` (the leaf receives a dict), and one of another shape that hides a list of the looped
+length inside a dict (not searched: passed whole) -/
+example :
+    let v : Val := .list [.list [.cell (.int 1), .cell (.int 2)], .list [.cell (.int 3), .cell (.int 4)]]
+    let deeper : Val := .list [.list [.list [.cell (.int 10)], .dict [("k", .cell (.int 20))]], .cell (.int 30)]
+    let other : Val := .list [.dict [("k", .list [.cell (.int 10), .cell (.int 20)])], .cell (.int 5), .cell (.int 6)]
+    NotSearched v [.idx 0, .idx 1] deeper ∧ pickAlong v [.idx 0, .idx 1] deeper = .dict [("k", .cell (.int 20))] ∧
+    NotSearched v [.idx 0, .idx 1] other ∧ pickAlong v [.idx 0, .idx 1] other = other := by
+  intro v deeper other
+  have hno : ¬ HoldsSeq 2 other := by
+    rintro ⟨q, cs, hq, hat, hl⟩
+    cases q with
+    | nil =>
+      rcases hat with hat | hat <;> simp [Val.at, other] at hat
+      subst hat; simp at hl
+    | cons s q =>
+      obtain ⟨j, rfl⟩ := hq s (by simp)
+      match j with
+      | 0 =>
+        cases q with
+        | nil => rcases hat with hat | hat <;> simp [Val.at, Val.child, other] at hat
+        | cons t q =>
+          obtain ⟨j', rfl⟩ := hq t (by simp)
+          rcases hat with hat | hat <;> simp [Val.at, Val.child, other] at hat
+      | 1 =>
+        cases q with
+        | nil => rcases hat with hat | hat <;> simp [Val.at, Val.child, other] at hat
+        | cons t q => rcases hat with hat | hat <;> simp [Val.at, Val.child, other] at hat
+      | 2 =>
+        cases q with
+        | nil => rcases hat with hat | hat <;> simp [Val.at, Val.child, other] at hat
+        | cons t q => rcases hat with hat | hat <;> simp [Val.at, Val.child, other] at hat
+      | n + 3 => rcases hat with hat | hat <;> simp [Val.at, Val.child, other] at hat
+  refine ⟨⟨fun h => ?_, ⟨fun h => ?_, trivial⟩⟩, by decide +kernel, ⟨fun h => hno h.2, ⟨fun h => ?_, trivial⟩⟩, by decide +kernel⟩
+  · have := h.1; revert this; decide +kernel
+  · have := h.1; revert this; decide +kernel
+  · have h2 := h.2
+    have : pickLevel v (.idx 0) other = other := by decide +kernel
+    rw [this] at h2
+    exact hno h2
 
 end Pyg.Props.C19
